@@ -9,13 +9,13 @@ PID = "C06"
 LANGS = ["kotlin", "java", "groovy", "scala"]
 
 
-def gen_tables(depth):
-    return tlc_must("HTypesGen", cfg(init="Init", next_="Next", constraints=["Emit"], constants={"UDepth": depth}),
+def gen_tables(depth, arrays=False):
+    return tlc_must("HTypesGen", cfg(init="Init", next_="Next", constraints=["EmitArr" if arrays else "Emit"], constants={"UDepth": depth}),
                     workers=1, name="gen_tables", timeout=1200)
 
 
-def tables(depth):
-    r = gen_tables(depth)
+def tables(depth, arrays=False):
+    r = gen_tables(depth, arrays)
     seen, out = set(), []
     for j in r.json:
         k = json.dumps(j["id"], sort_keys=True)
@@ -43,7 +43,7 @@ def run(tier, seed, selftest=False, replay=None):
         g, cases = None, [{"id": json.loads(cs["id"].rsplit("/", 1)[0]), "ct": cs["ct"], "order": ["A", "B", "Cc", "D"], "u": cs["u"], "lang": cs["lang"]}]
         gstates = (0, 0)
     else:
-        g, tabs = tables(2)
+        g, tabs = tables(2, arrays=True)
         gstates = (g.distinct, g.generated)
         if tier == "quick":
             # every table once (language rotating), depth-2 universe
